@@ -166,7 +166,7 @@ fn classify(p: &Program, l: &mut Vec<String>) {
 }
 
 pub fn run(ctx: &Ctx) {
-    ctx.set_rule("generated add sequences over all entry kinds of the 13 variable-body tables; the emitted image is walked by an independent walker from the specification's first-entry offset, stepping by each entry's own length field (or the specification's fixed size), with the specification's size for every type; the walk must land exactly on the end of the image, visit exactly the added entries in order with the right type codes, and every summarising field (entry/node/device/source/controller counts, locality count^2, per-entry element counts, array offsets, string lengths) must equal what the walk found; checked on every prefix of short histories. Non-trivial = >= 2 entries of >= 2 kinds, or an entry with >= 1 sub-element; distinct by hash.");
+    ctx.set_rule("generated add sequences over all entry kinds of the 13 variable-body tables; the emitted image is walked by an independent walker from the specification's first-entry offset, stepping by each entry's own length field (or the specification's fixed size), with the specification's size for every type; the walk must land exactly on the end of the image, visit exactly the added entries in order with the right type codes, and every summarising field (entry/node/device/source/controller counts, locality count^2, per-entry element counts, array offsets, string lengths) must equal what the walk found; checked on every prefix of short histories. Non-trivial = >= 2 entries of >= 2 kinds, or an entry with >= 1 sub-element; distinct by hash. Also: every entry of a program is serialised on its own and walked as a one-entry table (a CFMWS whose target list does not match its ways must be refused there too); after the known RDPAS length mismatch the walk re-syncs on the specification size so that later findings are not hidden; side cache / CXIMS / QoS controller objects are re-used after a refused call.");
     ctx.assume("entry parameters fit the entry's length field (larger ones are C18's subject); documented preconditions as in C01");
     let seed = ctx.seed;
     table_list(ctx, "c03.directed", directed_programs(KINDS, seed), &oracle, &nontrivial);
